@@ -107,6 +107,9 @@ pub struct Case {
     pub pool: usize,
     pub content_seed: u64,
     pub ops: Vec<Op>,
+    /// byte budget of the first layer (`max_memory_bytes`); None = unlimited, eviction by count only
+    #[serde(default)]
+    pub l0_bytes: Option<u32>,
 }
 
 /// Pool key `i` under naming scheme `style`: safe single-component file names,
@@ -187,6 +190,7 @@ pub struct Flags {
     pub fault_delete: bool,
     pub fault_noop: bool,
     pub eviction_possible: bool,
+    pub bytes_pressure: bool,
     pub evicted_observed: bool,
     pub promote_true: bool,
     pub remove_live: bool,
@@ -246,7 +250,7 @@ pub struct Interp<'a> {
 
 impl<'a> Interp<'a> {
     pub fn new(case: &'a Case, known: &'a Known, dir: &Path, progress: Shared) -> Result<Self, String> {
-        let sut = Sut::new(case.layout, case.policy, case.strat, case.hooks, dir)?;
+        let sut = Sut::new(case.layout, case.policy, case.strat, case.hooks, case.l0_bytes, dir)?;
         let pool = case.pool.clamp(1, 6);
         let layers = case.layout.layers();
         let keys: Vec<String> = (0..pool).map(|i| key_name(case.key_style, i)).collect();
@@ -340,10 +344,20 @@ impl<'a> Interp<'a> {
 
     /// A write into memory layer `layer` is about to happen: if the layer may be
     /// full, anything in it may be evicted.
-    fn before_memory_write(&mut self, layer: usize) {
+    fn before_memory_write(&mut self, layer: usize, ki: usize, incoming: usize) {
         let Some(cap) = self.cap(layer) else { return };
         let count = self.st.iter().filter(|s| s.slots[layer].is_some()).count();
-        if count >= cap {
+        // first layer with a byte budget: the entries of the other keys plus the incoming value
+        // may not fit, and then any of them may be evicted
+        let over_bytes = layer == 0
+            && self.case.l0_bytes.is_some_and(|b| {
+                let others: usize = self.st.iter().enumerate().filter(|(i, _)| *i != ki).filter_map(|(_, s)| s.slots[0].as_ref()).map(|sl| sl.bytes.len()).sum();
+                others + incoming > b as usize
+            });
+        if over_bytes {
+            self.flags.bytes_pressure = true;
+        }
+        if count >= cap || over_bytes {
             if layer == 0 {
                 self.flags.eviction_possible = true;
             }
@@ -356,7 +370,10 @@ impl<'a> Interp<'a> {
     }
 
     fn model_put(&mut self, ki: usize, layer: usize, serial: u64, bytes: Vec<u8>, zero: bool, tracks: bool) {
-        self.before_memory_write(layer);
+        self.before_memory_write(layer, ki, bytes.len());
+        // a value above the first layer's byte budget can never be held there: whether the layer
+        // has it is then not demanded (it has not; the statement only speaks of values a layer holds)
+        let not_admitted = layer == 0 && self.case.l0_bytes.is_some_and(|b| bytes.len() > b as usize);
         let s = &mut self.st[ki];
         s.history.push(bytes.clone());
         if s.history.len() > 40 {
@@ -373,7 +390,7 @@ impl<'a> Interp<'a> {
                 }
             }
         }
-        s.slots[layer] = Some(Slot { bytes, serial, zero, certain: true, tainted: false, deleted: false });
+        s.slots[layer] = Some(Slot { bytes, serial, zero, certain: !not_admitted, tainted: false, deleted: false });
         if tracks {
             self.tracked.insert(ki);
         }
@@ -743,8 +760,9 @@ impl<'a> Interp<'a> {
                     ));
                 };
                 self.st[ki].slots[from].as_mut().unwrap().certain = true;
-                self.before_memory_write(to);
-                self.st[ki].slots[to] = Some(Slot { bytes: src.bytes, serial: src.serial, zero: false, certain: true, tainted: src.tainted, deleted: false });
+                self.before_memory_write(to, ki, src.bytes.len());
+                let admitted = !(to == 0 && self.case.l0_bytes.is_some_and(|b| src.bytes.len() > b as usize));
+                self.st[ki].slots[to] = Some(Slot { bytes: src.bytes, serial: src.serial, zero: false, certain: admitted, tainted: src.tainted, deleted: false });
                 self.flags.promote_true = true;
                 Ok(())
             }
@@ -1126,6 +1144,7 @@ impl<'a> Interp<'a> {
             .class_if(fl.fault_delete, "fault-delete")
             .class_if(fl.fault_noop, "fault-noop")
             .class_if(fl.eviction_possible, "layer0-full")
+            .class_if(fl.bytes_pressure, "layer0-byte-budget-reached")
             .class_if(fl.evicted_observed, "layer0-eviction-observed")
             .class_if(fl.promote_true, "promote-true")
             .class_if(fl.remove_live, "remove-of-live-key")
